@@ -51,6 +51,7 @@ class Writer:
         self.owners = []
         self.funcs = []
         self.col0 = True
+        self.variant = "marked"
 
     def _put(self, text, kind):
         if not text:
@@ -78,6 +79,9 @@ class Writer:
         self._put(text, "w")
 
     def comment(self, text):
+        """text: str, or {"marked": ..., "neutral": ...} (C17: the same program with / without suppression markers)"""
+        if isinstance(text, dict):
+            text = text[self.variant]
         self._put(text, "m")
 
     def nl(self, tc=None):
@@ -97,8 +101,9 @@ class Writer:
         self.owners.pop()
 
 
-def render(ast) -> Rendered:
+def render(ast, variant="marked") -> Rendered:
     w = Writer(ast.get("indent", "    "))
+    w.variant = variant
     lang = ast["lang"]
     if lang == "Python":
         _py_items(w, ast["items"])
@@ -118,7 +123,12 @@ def _trivia(w, node, lang):
     if k == "cmt":
         style = node["style"]
         lines = node["lines"]
-        if style == "line":
+        if style == "raw":  # complete comment text(s), possibly {"marked", "neutral"} pairs
+            for ln in lines:
+                w.indent()
+                w.comment(ln)
+                w.ws("\n")
+        elif style == "line":
             lead = "#" if lang == "Python" else "//"
             for ln in lines:
                 w.indent()
@@ -242,7 +252,14 @@ def _br_func(w, f, lang):
         w.indent()
         w.code(ln)
         w.nl()
+    if f.get("above_c"):
+        w.indent()
+        w.comment(f["above_c"])
+        w.nl()
     w.indent()
+    if f.get("pre_c"):
+        w.comment(f["pre_c"])
+        w.ws(" ")
     prefix = f.get("prefix", "")  # modifiers + return type on the header's line: owned by the enclosing scope
     if prefix:
         w.code(prefix)
@@ -261,9 +278,11 @@ def _br_func(w, f, lang):
         w.funcs[fid]["qual"] = (qual_at, f["qual"])
     head = f["head"]  # e.g. "function name", "name", "const name = async", "Cls::name"
     params = f["params"]
+    name_tc = f.get("name_tc")
     if f.get("hdr_lines") and params:
         w.code(head + "(")
-        w.nl()
+        w.nl(name_tc)
+        name_tc = None
         for i, p in enumerate(params):
             w.indent(2)
             w.code(p + ("," if i < len(params) - 1 else ""))
@@ -272,7 +291,17 @@ def _br_func(w, f, lang):
         w.code(")" + f.get("suffix", ""))
     else:
         w.code(head + "(" + ", ".join(params) + ")" + f.get("suffix", ""))
-    _open_brace(w, f.get("brace_next"), f.get("tc_open"))
+    if name_tc is not None:
+        if f.get("brace_next"):
+            w.ws(" ")
+            w.comment(name_tc)
+            _open_brace(w, True, f.get("tc_open"))
+        else:
+            w.ws(" ")
+            w.code("{")
+            w.nl(name_tc)
+    else:
+        _open_brace(w, f.get("brace_next"), f.get("tc_open"))
     w.level += 1
     _br_items(w, f["body"], lang)
     w.level -= 1
@@ -338,6 +367,10 @@ def _py_node(w, node):
             w.indent()
             w.code(ln)
             w.nl()
+        if node.get("above_c"):
+            w.indent()
+            w.comment(node["above_c"])
+            w.nl()
         w.indent()
         async_at = None
         if node.get("is_async"):
@@ -349,16 +382,17 @@ def _py_node(w, node):
         head = "def " + node["name"]
         if node.get("hdr_lines") and params:
             w.code(head + "(")
-            w.nl()
+            w.nl(node.get("name_tc"))
             for p in params:
                 w.indent(2)
                 w.code(p + ",")
                 w.nl()
             w.indent()
             w.code(")" + node.get("suffix", "") + ":")
+            w.nl(node.get("tc_open"))
         else:
             w.code(head + "(" + ", ".join(params) + ")" + node.get("suffix", "") + ":")
-        w.nl(node.get("tc_open"))
+            w.nl(node.get("name_tc") or node.get("tc_open"))
         _py_suite(w, node["body"])
         w.finish()
     else:
